@@ -104,11 +104,11 @@ def pathContains : Column → Bool :=
   notEmptyB (handleNullsB (fun c => c.cells.all (fun x => x.isPurePath && x.pathAbs)))
 def sparseContains : Column → Bool := fun c => c.dtype.isSparse
 
-/-- `_is_string` (under `series_handle_nulls`): the first five values are `str`, and
+/-- `_is_string` (under `series_handle_nulls`): every value is a `str`, and
 `series.astype(str).values == series.values` everywhere (TypeError/ValueError → False) -/
 def isString : Column → Bool :=
   handleNullsB (fun c =>
-    if !((c.cells.take 5).all (·.isStr)) then false
+    if !(c.cells.all (·.isStr)) then false
     else c.cells.all (fun x => match x.strEq with | .ok b => b | .raises _ => false))
 def stringContains : Column → Bool :=
   notSparseB (notEmptyB (handleNullsB (fun c =>
